@@ -6,8 +6,8 @@ import core, gen
 from core import sx, enc_note, enc_chord, py_res, show_ints, show_opt_int
 
 ID = 'C01'
-LEAN_MODULES = ['MV.Props.C01']
-LEAN_HELPERS = ['MV.Lemmas.Scale', 'MV.Model.Pitch', 'MV.Model.Rel', 'MV.Model.Basic', 'MV.Model.Types']
+LEAN_MODULES = ['MV.Props.C01', 'MV.Props.C01b']
+LEAN_HELPERS = ['MV.Lemmas.Shift', 'MV.Lemmas.Ext', 'MV.Lemmas.Scale', 'MV.Model.Pitch', 'MV.Model.Rel', 'MV.Model.Basic', 'MV.Model.Types']
 DRIVERS = ['C01']
 GEN = ['Tables', 'Library']
 RULE = ('stratified (chord, note) pairs: every mode x degree x base figure at least once, random tonic/octaves, '
